@@ -30,6 +30,7 @@ by a conditional augment is written as an explicit case carrying the condition; 
 uses add to one node are written in libyang's order (outer uses first).
 """
 import itertools
+import os
 import re
 
 from props import comps_restrict as R
@@ -787,7 +788,7 @@ class Gen:
             eff, dflt, units = self.fl.type_eff(t)
             # (the middle typedef of a chain of three always has both: otherwise libyang dereferences a null pointer in
             # lys_compile_type when the last typedef is used a second time - listed finding typedef-chain-inherit-null)
-            force = depth == 3 and d == 1
+            force = depth == 3 and d == 1 and not os.environ.get("FLATTEN_NO_AVOID")     # (switch for checking a fix)
             if (dflt is not None and not eff.accepts(dflt)) or (dflt is None and rng.random() < 0.35) or rng.random() < 0.1 \
                     or (force and td.find("default") is None):
                 td.add(S("default", pick_value(rng, eff)))
@@ -1684,8 +1685,8 @@ def make_sets(rng):
     alts = {}
     for tag, kw in (("refine-nested-inner-wins", {"inner_refine_wins": True}),):
         fx = flat(**kw)
-        if fx["fa"].text() != f0["fa"].text() or fx["fb"].text() != f0["fb"].text():
-            if not any(fx["fa"].text() == a["fa"].text() and fx["fb"].text() == a["fb"].text() for a in alts.values()):
+        if any(fx[k].text() != f0[k].text() for k in ("fa", "fb", "fd")):
+            if not any(all(fx[k].text() == a[k].text() for k in ("fa", "fb", "fd")) for a in alts.values()):
                 alts[tag] = fx
     return mods, f0, alts, build_model(f0["fa"], f0["fb"])
 
